@@ -7,7 +7,8 @@ pending="$*"
 while [ -n "$pending" ]; do
   next=""
   for id in $pending; do
-    if [ -f $dir/${id}_out/meta.json ] && [ -f $dir/${id}_out/patch.diff ] && [ -f $dir/${id}.done ]; then
+    # done = the agent's last file (meta.json) exists and has not been touched for a minute, or a .done marker was set
+    if [ -f $dir/${id}_out/meta.json ] && [ -f $dir/${id}_out/patch.diff ] && { [ -f $dir/${id}.done ] || [ -n "$(find $dir/${id}_out/meta.json -mmin +1 2>/dev/null)" ]; }; then
       echo "=== $id $(date +%H:%M:%S)"
       python3 /verif/lib/seedtest.py $dir/${id}_out ${id}-$suf $id 2>&1 | tail -25
     else
